@@ -24,9 +24,20 @@ int main(int argc, char** argv) {
   ctx.bound("scheduling_points", "before every access to a word touched by >= 2 fibres with >= 1 write (fixpoint over executions), before every static-init guard decision, at atomic stores/RMWs");
   ctx.bound("schedule_cap_per_body", (long long)cap);
   ctx.sub("explore");
+  // thorough: every body additionally with 3 fibres, and a second pass in which READS of shared words are scheduling
+  // points too (finer interleavings; capped, the cap is reported)
+  std::vector<c14::Body> B2;
   for (auto& b : B) {
-    if (!T && !b.quick) { continue; }
+    if (!T && !b.quick) continue;
+    B2.push_back(b);
+    if (T && b.nf == 2) { c14::Body c = b; c.nf = 3; c.name += "/3-fibres"; B2.push_back(c); }
+    if (T && b.nf == 2) { c14::Body c = b; c.name += "/points-at-reads"; B2.push_back(c); }
+  }
+  ctx.bound("thorough_extras", "every 2-fibre body also with 3 fibres (bound 2) and with scheduling points at reads of shared words (bound 2)");
+  for (auto& b : B2) {
     if (!ctx.take()) continue;
+    const bool par = b.name.size() > 16 && b.name.compare(b.name.size() - 16, 16, "/points-at-reads") == 0;
+    sched::points_at_reads(par);
     // outputs
     static c14::Out out[sched::MAXF], ref[sched::MAXF];
     auto setup = [&] { for (int i = 0; i < sched::MAXF; ++i) out[i].n = 0; b.setup(); };
@@ -70,7 +81,7 @@ int main(int argc, char** argv) {
       }
       return true;
     };
-    sched::ExploreStats st = sched::explore(b.nf, setup, body, b.nf == 2 ? bound2 : bound3, cap, on_exec);
+    sched::ExploreStats st = sched::explore(b.nf, setup, body, par ? 2 : (b.nf == 2 ? bound2 : bound3), cap, on_exec);
     // replay determinism on the default schedule
     {
       const char* tr = getenv("SCHED_TRACE"); FILE* f1 = nullptr; FILE* f2 = nullptr;
